@@ -919,7 +919,7 @@ def run(ctx):
         ctx.fail_closed('C12', 'R-EXPR', 'C12-D4', 'SemanticState::add_file not found')
     else:
         af = af[0]
-        cl = P.closures_of(af)
+        cl = [af] + P.closures_of(af)        # the mapping may be a closure (`map_err(|e| ..)`) or an `Err(e) => ..` arm of add_file itself
         txt = json.dumps([c.raw['blocks'] for c in cl])
         has_fmt = any(('str' in x and 'failed to parse' in x.get('str', '')) for x in _all_consts(cl)) or 'failed to parse' in txt
         fields = set()
